@@ -155,86 +155,93 @@ theorem holesAtGround_shape (tb : Tables) (s : St) (a b : List Seg) (h : shape a
 /-! ### `ANSI.format` and `ANSI.__mod__` -/
 
 /-- `renderFormat`, keeping the literal / value structure -/
-def fillFormat (esc : Text → Text) (args : List Text) :
+def fillFormat (esc : Text → Text) (pr : Char → Bool) (args : List Val) (kw : List (Text × Val)) :
     Option (Option Nat) → List Item → Except Err (List Seg)
   | _, [] => .ok []
   | st, .lit t :: rest =>
-    match fillFormat esc args st rest with
+    match fillFormat esc pr args kw st rest with
     | .ok r => .ok (.lit t :: r)
     | .error e => .error e
-  | st, .hole idx spec :: rest =>
-    match selectArg idx st with
+  | st, .hole h :: rest =>
+    match renderHole esc pr args kw st h with
     | .error e => .error e
-    | .ok (i, st') =>
-      match args[i]? with
-      | none => .error .index
-      | some v =>
-        match fillFormat esc args st' rest with
-        | .ok r => .ok (.val (esc (fmtStr v spec)) :: r)
-        | .error e => .error e
+    | .ok (t, st') =>
+      match fillFormat esc pr args kw st' rest with
+      | .ok r => .ok (.val t :: r)
+      | .error e => .error e
 
-theorem renderFormat_eq_fill (esc : Text → Text) (args : List Text) (st : Option (Option Nat))
-    (items : List Item) :
-    renderFormat esc args st items = (fillFormat esc args st items).map flat := by
+theorem renderFormat_eq_fill (esc : Text → Text) (pr : Char → Bool) (args : List Val)
+    (kw : List (Text × Val)) (st : Option (Option Nat)) (items : List Item) :
+    renderFormat esc pr args kw st items = (fillFormat esc pr args kw st items).map flat := by
   induction items generalizing st with
   | nil => simp [renderFormat, fillFormat, Except.map, flat]
   | cons it rest ih =>
     cases it with
     | lit t =>
       simp only [renderFormat, fillFormat, ih]
-      cases fillFormat esc args st rest <;> simp [Except.map, bind, Except.bind, pure, Except.pure, flat]
-    | hole idx spec =>
+      cases fillFormat esc pr args kw st rest <;> simp [Except.map, flat]
+    | hole h =>
       simp only [renderFormat, fillFormat]
-      cases selectArg idx st with
+      cases renderHole esc pr args kw st h with
       | error e => simp [Except.map]
       | ok p =>
-        obtain ⟨i, st'⟩ := p
-        simp only
-        cases args[i]? with
-        | none => simp [Except.map]
-        | some v =>
-          simp only [ih]
-          cases fillFormat esc args st' rest <;>
-            simp [Except.map, bind, Except.bind, pure, Except.pure, flat]
+        obtain ⟨t, st'⟩ := p
+        simp only [ih]
+        cases fillFormat esc pr args kw st' rest <;> simp [Except.map, flat]
 
-theorem fillFormat_valsInert (args : List Text) (st : Option (Option Nat)) (items : List Item)
-    (segs : List Seg) (h : fillFormat ansiEscape args st items = .ok segs) : ValsInert segs := by
+/-- what a field contributes is always an escaped text -/
+theorem renderHole_escaped (esc : Text → Text) (pr : Char → Bool) (args : List Val)
+    (kw : List (Text × Val)) (st st' : Option (Option Nat)) (h : Hole) (t : Text)
+    (hr : renderHole esc pr args kw st h = .ok (t, st')) : ∃ x, t = esc x := by
+  unfold renderHole at hr
+  split at hr
+  · simp at hr
+  · split at hr
+    · simp at hr
+    · split at hr
+      · simp at hr
+      · rename_i x _
+        simp at hr
+        exact ⟨x, hr.1.symm⟩
+
+theorem fillFormat_valsInert (pr : Char → Bool) (args : List Val) (kw : List (Text × Val))
+    (st : Option (Option Nat)) (items : List Item)
+    (segs : List Seg) (h : fillFormat ansiEscape pr args kw st items = .ok segs) : ValsInert segs := by
   induction items generalizing st segs with
   | nil => simp [fillFormat] at h; subst h; simp [ValsInert]
   | cons it rest ih =>
     cases it with
     | lit t =>
       simp only [fillFormat] at h
-      cases hr : fillFormat ansiEscape args st rest with
+      cases hr : fillFormat ansiEscape pr args kw st rest with
       | error e => simp [hr] at h
       | ok r => simp [hr] at h; subst h; simp [ValsInert]; exact ih _ _ hr
-    | hole idx spec =>
+    | hole hh =>
       simp only [fillFormat] at h
-      cases hsel : selectArg idx st with
+      cases hsel : renderHole ansiEscape pr args kw st hh with
       | error e => simp [hsel] at h
       | ok p =>
-        obtain ⟨i, st'⟩ := p
+        obtain ⟨t, st'⟩ := p
         simp only [hsel] at h
-        cases ha : args[i]? with
-        | none => simp [ha] at h
-        | some v =>
-          simp only [ha] at h
-          cases hr : fillFormat ansiEscape args st' rest with
-          | error e => simp [hr] at h
-          | ok r =>
-            simp [hr] at h; subst h
-            exact ⟨ansiEscape_inert _, ih _ _ hr⟩
+        cases hr : fillFormat ansiEscape pr args kw st' rest with
+        | error e => simp [hr] at h
+        | ok r =>
+          simp [hr] at h; subst h
+          obtain ⟨x, rfl⟩ := renderHole_escaped _ _ _ _ _ _ _ _ hsel
+          exact ⟨ansiEscape_inert _, ih _ _ hr⟩
 
-/-- **`ANSI(tmpl).format(*args)`**: for every template of the modelled grammar whose holes are at
-    ground state and for all argument strings, the result is the template's own fragments with the
-    characters of each escaped (and padded) value spliced in, in the style current at its hole. -/
-theorem ansiFormat_inert (tb : Tables) (tmpl : Text) (args : List Text) (items : List Item)
+/-- **`ANSI(tmpl).format(*args, **kwargs)`**: for every template of the modelled grammar (automatic,
+    numbered and keyword fields, conversions, format specs) whose holes are at ground state and for
+    all argument values, the result is the template's own fragments with the characters of each
+    escaped (converted, padded) value spliced in, in the style current at its hole. -/
+theorem ansiFormat_inert (tb : Tables) (pr : Char → Bool) (tmpl : Text) (args : List Val)
+    (kw : List (Text × Val)) (items : List Item)
     (segs : List Seg)
     (hscan : scanFormat tmpl = some (.ok items))
-    (hfill : fillFormat ansiEscape args none items = .ok segs)
+    (hfill : fillFormat ansiEscape pr args kw none items = .ok segs)
     (hg : HolesAtGround tb {} segs) :
-    ansiFormat tb tmpl args = some (.ok (spliceRun tb {} segs).2) := by
-  have hv := fillFormat_valsInert args none items segs hfill
+    ansiFormat tb pr tmpl args kw = some (.ok (spliceRun tb {} segs).2) := by
+  have hv := fillFormat_valsInert pr args kw none items segs hfill
   simp [ansiFormat, vformat, hscan, renderFormat_eq_fill, hfill, Except.map, ansi,
     run_template_inert tb {} segs hg hv]
 
@@ -312,15 +319,15 @@ theorem fillPercent_valsInert (args : List Text) (items : List PItem) (segs : Li
                  ih _ _ (fun a ha' => ha a (by simp [ha'])) hr⟩
 
 /-- **`ANSI(tmpl) % args`** -/
-theorem ansiMod_inert (tb : Tables) (tmpl : Text) (args : List Text) (items : List PItem)
+theorem ansiMod_inert (tb : Tables) (tmpl : Text) (args : List Val) (items : List PItem)
     (segs : List Seg)
     (hscan : scanPercent tmpl = some (.ok items))
-    (hfill : fillPercent (args.map ansiEscape) items = .ok segs)
+    (hfill : fillPercent (args.map fun v => ansiEscape v.s) items = .ok segs)
     (hg : HolesAtGround tb {} segs) :
     ansiMod tb tmpl args = some (.ok (spliceRun tb {} segs).2) := by
-  have hv := fillPercent_valsInert (args.map ansiEscape) items segs
+  have hv := fillPercent_valsInert (args.map fun v => ansiEscape v.s) items segs
     (by intro a ha; simp only [List.mem_map] at ha; obtain ⟨x, _, rfl⟩ := ha
-        exact ansiEscape_inert x) hfill
+        exact ansiEscape_inert x.s) hfill
   simp [ansiMod, pformat, hscan, renderPercent_eq_fill, hfill, Except.map, ansi,
     run_template_inert tb {} segs hg hv]
 
@@ -583,24 +590,27 @@ def exTb : Tables := { fg := [(31, "ansired".toList)], bg := [], c256 := [] }
 def exTmpl : Text :=
   [ESC, '[', '3', '1', 'm', 'a', '{', ':', '>', '3', '}', 'b', ESC, '[', '0', 'm', '{', '}']
 /-- hostile values: a CSI introducer and a zero-width block -/
-def exArgs : List Text := [[ESC, '['], [SOH, 'x', STX]]
+def exArgs : List Val := [{ s := [ESC, '['] }, { s := [SOH, 'x', STX] }]
+/-- `str.isprintable` stand-in for the examples (ASCII only) -/
+def exPr (c : Char) : Bool := 0x20 ≤ c.toNat && c.toNat < 0x7f
 
 example : ∃ items segs, scanFormat exTmpl = some (.ok items) ∧
-    fillFormat ansiEscape exArgs none items = .ok segs ∧ HolesAtGround exTb {} segs ∧
-    ansiFormat exTb exTmpl exArgs = some (.ok
+    fillFormat ansiEscape exPr exArgs [] none items = .ok segs ∧ HolesAtGround exTb {} segs ∧
+    ansiFormat exTb exPr exTmpl exArgs [] = some (.ok
       [⟨"ansired".toList, ['a'], none⟩, ⟨"ansired".toList, [' '], none⟩,
        ⟨"ansired".toList, ['?'], none⟩, ⟨"ansired".toList, ['['], none⟩,
        ⟨"ansired".toList, ['b'], none⟩,
        ⟨[], ['?'], none⟩, ⟨[], ['x'], none⟩, ⟨[], ['?'], none⟩]) :=
-  ⟨[.lit [ESC, '[', '3', '1', 'm', 'a'], .hole none { align := .right, width := 3 },
-    .lit ['b', ESC, '[', '0', 'm'], .hole none {}], _, rfl, rfl, by decide, rfl⟩
+  ⟨[.lit [ESC, '[', '3', '1', 'm', 'a'],
+    .hole { spec := { align := .right, width := 3 }, specEmpty := false },
+    .lit ['b', ESC, '[', '0', 'm'], .hole {}], _, rfl, rfl, by decide, rfl⟩
 
 /-- `ESC[31ma%-3sb` -/
 def exPTmpl : Text := [ESC, '[', '3', '1', 'm', 'a', '%', '-', '3', 's', 'b']
 
 example : ∃ items segs, scanPercent exPTmpl = some (.ok items) ∧
     fillPercent ([[CSI8, '1']].map ansiEscape) items = .ok segs ∧ HolesAtGround exTb {} segs ∧
-    ansiMod exTb exPTmpl [[CSI8, '1']] = some (.ok
+    ansiMod exTb exPTmpl [{ s := [CSI8, '1'] }] = some (.ok
       [⟨"ansired".toList, ['a'], none⟩, ⟨"ansired".toList, ['?'], none⟩,
        ⟨"ansired".toList, ['1'], none⟩, ⟨"ansired".toList, [' '], none⟩,
        ⟨"ansired".toList, ['b'], none⟩]) :=
